@@ -222,9 +222,35 @@ pub struct Cell
 	pub codes: Vec<u16>,
 }
 
+pub const CONTEXTS: [&str; 7] = ["straight-line code", "then branch", "else branch", "then branch of an else-if", "nested block", "looping block", "after a label"];
+
+thread_local! {
+	/// The statement context in which `function` places the statements of a cell.
+	static CONTEXT: std::cell::Cell<usize> = std::cell::Cell::new(0);
+}
+
 fn function(body: &str) -> String
 {
-	format!("{PRELUDE}fn f()\n{{\n{}{body}}}\n", locals())
+	let wrapped = match CONTEXT.with(|c| c.get())
+	{
+		1 => format!("\tif 1i32 == 1i32\n\t{{\n{body}\t}}\n"),
+		2 => format!("\tif 1i32 == 2i32\n\t{{\n\t}}\n\telse\n\t{{\n{body}\t}}\n"),
+		3 => format!("\tif 1i32 == 2i32\n\t{{\n\t}}\n\telse if 1i32 == 1i32\n\t{{\n{body}\t}}\n"),
+		4 => format!("\t{{\n\t\t{{\n{body}\t\t}}\n\t}}\n"),
+		5 => format!("\tvar li: i32 = 0;\n\t{{\n\t\tif li == 1i32\n\t\t\tgoto l_done;\n\t\tli = li + 1i32;\n{body}\t\tloop;\n\t}}\n\tl_done:\n"),
+		6 => format!("\tgoto l_next;\n\tl_next:\n{body}"),
+		_ => body.to_string(),
+	};
+	format!("{PRELUDE}fn f()\n{{\n{}{wrapped}}}\n", locals())
+}
+
+/// The cells of a family with their statements placed in the given statement context.
+pub fn cells_in(family: &str, context: usize) -> Vec<Cell>
+{
+	CONTEXT.with(|c| c.set(context));
+	let out = cells(family);
+	CONTEXT.with(|c| c.set(0));
+	out
 }
 
 pub fn cells(family: &str) -> Vec<Cell>
@@ -438,6 +464,24 @@ pub fn drive(d: &mut Driver)
 	}
 	d.bound("cells per family (the matrix is finite and enumerated completely in both tiers)", Value::Object(sizes));
 	d.phase("type matrix", jobs);
+	// the same matrix with the statements of every cell inside each statement context
+	d.bound("statement contexts", json!(CONTEXTS));
+	let mut jobs = Vec::new();
+	for context in 1..CONTEXTS.len()
+	{
+		for f in FAMILIES
+		{
+			let n = cells(f).len();
+			let mut lo = 0;
+			while lo < n
+			{
+				let hi = (lo + 240).min(n);
+				jobs.push(json!({"family": f, "lo": lo, "hi": hi, "context": context}));
+				lo = hi;
+			}
+		}
+	}
+	d.phase("type matrix inside statement contexts", jobs);
 	let files: Vec<String> = crate::util::corpus_files().into_iter().filter(|f| f.contains("/valid/") || f.contains("/examples/")).collect();
 	d.bound("corpus files for the resolved-tree monitor", json!(files.len()));
 	let jobs: Vec<Value> = files.chunks(8).map(|c| json!({"corpus": c})).collect();
@@ -457,8 +501,9 @@ pub fn work(spec: &Value, w: &mut WorkerCtx)
 		}
 		let family = case["family"].as_str().unwrap().to_string();
 		let index = case["index"].as_u64().unwrap() as usize;
-		let cs = cells(&family);
-		judge(&cs[index], index, w);
+		let context = case["context"].as_u64().unwrap_or(0) as usize;
+		let cs = cells_in(&family, context);
+		judge(&cs[index], index, context, w);
 		return;
 	}
 	if let Some(files) = spec.get("corpus").and_then(|f| f.as_array())
@@ -471,18 +516,25 @@ pub fn work(spec: &Value, w: &mut WorkerCtx)
 		return;
 	}
 	let family = spec["family"].as_str().unwrap();
-	let cs = cells(family);
+	let context = spec["context"].as_u64().unwrap_or(0) as usize;
+	let cs = cells_in(family, context);
+	let plain = if context > 0 { cells(family) } else { Vec::new() };
 	for i in spec["lo"].as_u64().unwrap() as usize..spec["hi"].as_u64().unwrap() as usize
 	{
+		// cells whose text does not depend on the context were judged in the first phase
+		if context > 0 && plain[i].text == cs[i].text
+		{
+			continue;
+		}
 		w.result.transitions += 1;
-		judge(&cs[i], i, w);
+		judge(&cs[i], i, context, w);
 	}
 }
 
-fn judge(cell: &Cell, index: usize, w: &mut WorkerCtx)
+fn judge(cell: &Cell, index: usize, context: usize, w: &mut WorkerCtx)
 {
 	w.result.states += 1;
-	let desc = || json!({"family": cell.family, "index": index, "cell": cell.what, "text": cell.text, "sig_hint": cell.family, "size": cell.text.len()});
+	let desc = || json!({"family": cell.family, "index": index, "context": context, "cell": cell.what, "text": cell.text, "sig_hint": cell.family, "size": cell.text.len()});
 	let d = desc().to_string().into_bytes();
 	let size = cell.text.len() as u64;
 	let text = cell.text.clone();
@@ -515,13 +567,13 @@ fn judge(cell: &Cell, index: usize, w: &mut WorkerCtx)
 				(Verdict::Ok { .. }, Some(false)) =>
 				{
 					ok = false;
-					w.result.violation(&format!("ill-typed-accepted:{}:{}", cell.family, operand_class(&cell.what)), size, &desc, || format!("ill-typed cell `{}` is accepted\n{}", cell.what, cell.text));
+					w.result.violation(&format!("ill-typed-accepted:{}:{}{}", cell.family, operand_class(&cell.what), if context > 0 { format!(":in a {}", CONTEXTS[context]) } else { String::new() }), size, &desc, || format!("ill-typed cell `{}` is accepted\n{}", cell.what, cell.text));
 				}
 				(Verdict::Rejected { diags, .. }, Some(true)) =>
 				{
 					ok = false;
 					let codes: Vec<u16> = diags.iter().map(|d| d.code).collect();
-					w.result.violation(&format!("well-typed-rejected:{}:E{}:{}", cell.family, codes.first().copied().unwrap_or(0), class_of(&cell.what)), size, &desc, || {
+					w.result.violation(&format!("well-typed-rejected:{}:E{}:{}{}", cell.family, codes.first().copied().unwrap_or(0), class_of(&cell.what), if context > 0 { format!(":in a {}", CONTEXTS[context]) } else { String::new() }), size, &desc, || {
 						format!("well-typed cell `{}` is rejected with {codes:?}\n{}", cell.what, cell.text)
 					});
 				}
